@@ -43,7 +43,7 @@ Theorem C18_event_roundtrip :
   forall fx u f st b rest, user_magic_ok u -> len b < two32 -> r_eoff st = r_pos st ->
   read_loop fx u (S f) st (fr u b ++ rest) =
   read_loop fx u f {| r_pos := r_pos st + len (fr u b); r_crc := crc_update (r_crc st) (fr u b); r_ts := r_ts st;
-                      r_eoff := r_pos st + len (fr u b); r_cpos := r_cpos st; r_ev := EvApply (r_pos st) b :: r_ev st |} rest.
+                      r_eoff := r_pos st + len (fr u b); r_cpos := r_cpos st; r_ev := EvApply (r_pos st) b :: r_ev st; r_rot := r_rot st |} rest.
 Proof. exact read_loop_user. Qed.
 
 (* "Commit notifications are monotone and never exceed the bytes written before the last fsync": for every interleaving
@@ -107,6 +107,24 @@ Theorem C18_flip_before_rotate_undetected_refuted :
   applies (rr_ev (replay false false ex_u 12345 img 0 None)) = [(44, [0; 2; 3; 4; 5]); (132, ex_b2)] /\
   rr_err (replay true false ex_u 12345 img 0 None) = ECrc.
 Proof. exact ex_flip_before_rotate_refuted. Qed.
+
+(* second half of F-C18a: the levRotateTo record's own bytes are covered by the NEXT chunk's levRotateFrom.Crc32 (the writer
+   computes it over them) but the code never compares it with anything: a flip inside levRotateTo (witness: last byte of
+   chunk 0) passes even when levRotateTo.Crc32 is verified; the repaired reader carries the crc over the record to the
+   next chunk's header.  Reproduced on the real code by the harness witness F-C18a *)
+Theorem C18_flip_inside_rotate_record_undetected_refuted :
+  let img := flip_files 0 95 0 (image_of ex_w) in
+  nth_error (map (fun f => len f) (image_of ex_w)) 0 = Some 96 /\
+  rr_err (replay false false ex_u 12345 img 0 None) = ENone /\
+  applies (rr_ev (replay false false ex_u 12345 img 0 None)) = [(44, ex_b1); (132, ex_b2)] /\
+  rr_err (replay true false ex_u 12345 img 0 None) = ECrc /\
+  applies (rr_ev (replay true false ex_u 12345 img 0 None)) = [(44, ex_b1)].
+Proof. exact ex_flip_inside_rotate_record_refuted. Qed.
+
+Theorem C18_chunk_chain_crc_checked_when_repaired :
+  forall fx u h r from si eoff ts ev pa ca c, h_crc h <> c ->
+  read_files fx true u (h :: r) from si eoff ts ev pa ca (Some c) = {| rr_ev := rev ev; rr_err := ECrc; rr_pos := pa; rr_crc := ca |}.
+Proof. exact read_files_chain_mismatch. Qed.
 
 (* the repaired reader (fx_rot = true) verifies it *)
 Theorem C18_rotate_crc_checked_when_repaired :
